@@ -204,6 +204,52 @@ func c18(r *Report) {
 	})
 
 	r.Guard("C18.R2", "every numeric field and every parsed value of a configuration is validated by a rejecting test", func() {
+		// the lists a shaped connection binary-searches are the lists the configuration
+		// step sorted: for every Shape field that flows into a sort.Search, parseShapes
+		// sorts that very field (not a copy of it)
+		searched := map[string]token.Pos{}
+		for _, f := range w.Funcs("trafficshape") {
+			for _, c := range plainCalls(f, "sort.Search") {
+				n := c.Call.Args[0]
+				if lc, isC := n.(*ssa.Call); isC {
+					if bi, isB := lc.Call.Value.(*ssa.Builtin); isB && bi.Name() == "len" {
+						n = lc.Call.Args[0]
+					}
+				}
+				for v := range w.backSlice(n, flowOpt{}) {
+					if fa, ok := v.(*ssa.FieldAddr); ok && strings.HasSuffix(fa.X.Type().String(), "trafficshape.Shape") {
+						if _, isSl := fieldObj(fa).Type().Underlying().(*types.Slice); isSl {
+							searched[fieldObj(fa).Name()] = c.Pos()
+						}
+					}
+				}
+			}
+		}
+		if len(searched) < 2 {
+			r.Undecided("binary-searched Shape fields", fmt.Sprintf("UNRESOLVED: %d found, Throttles and Actions confirmed on the pinned tree", len(searched)))
+		}
+		for _, name := range keys(func() map[string]bool {
+			m := map[string]bool{}
+			for k := range searched {
+				m[k] = true
+			}
+			return m
+		}()) {
+			sortedInPlace := false
+			for _, c := range plainCalls(ps, "sort.SliceStable", "sort.Slice", "sort.Sort", "sort.Stable") {
+				arg := c.Call.Args[0]
+				if mi, isMI := arg.(*ssa.MakeInterface); isMI {
+					arg = mi.X
+				}
+				if ld, isLd := arg.(*ssa.UnOp); isLd && ld.Op == token.MUL {
+					if fa, isFa := ld.X.(*ssa.FieldAddr); isFa && fieldObj(fa).Name() == name {
+						sortedInPlace = true
+					}
+				}
+			}
+			r.Decide("flow", "M/trafficshape.parseShapes: Shape."+name+" is sorted where it is stored", sortedInPlace, "sort applied to the field itself", "Shape."+name+" is binary-searched by connections but parseShapes no longer sorts the field itself (a sorted copy is used for validation only): with a configuration listed out of byte order the search misses entries and a throttle / action is not applied", searched[name])
+		}
+
 		fns := []*ssa.Function{sh, ps}
 		fns = append(fns, ps.AnonFuncs...)
 		rejectsFrom := func(f *ssa.Function, b *ssa.BasicBlock) bool {
